@@ -43,6 +43,11 @@ def r1_r3_get_closest(ctx: Context) -> None:
     g = CFG(f.node)
     rets = returns_of(f)
     ctx.floor("R1", "return in get_closest", len(rets), 1)
+    # the index arithmetic must be readable in place: if part of it sits in repository helpers that could not be inlined (several returns, masks passed
+    # around in records), the clamp may be there too and nothing can be said here
+    from ..model import FuncInfo
+    opaque = sorted({src(c_.func) for c_ in calls_in(f.node, scope_only=False) if any(isinstance(t, FuncInfo) for t in ctx.prog.resolve_call(f, c_))})
+    mark = (len(ctx.obligations), len(ctx.findings))
     rebound = [s for s in walk_scope(f.node) if isinstance(s, (ast.Assign, ast.AugAssign, ast.AnnAssign))
                for t in ast.walk(s.targets[0] if isinstance(s, ast.Assign) else s.target) if isinstance(t, ast.Name) and isinstance(t.ctx, ast.Store) and t.id == grid]
     ctx.check(not rebound, "R1.grid-param", "get_closest:grid-not-rebound", "the grid parameter is never rebound",
@@ -101,6 +106,11 @@ def r1_r3_get_closest(ctx: Context) -> None:
             ctx.fail("R3.clamp", f"get_closest:subscript:{src(e)}", f"`{grid}[{src(e)}]`: index derived from searchsorted is not clamped into [0, len-1]", f, s)
         n_clamped += 1
     ctx.notes["grid_subscripts"] = n_clamped
+    if opaque and len(ctx.findings) > mark[1]:
+        # what looked like a missing clamp / a foreign return may sit in the helper: withdraw those verdicts and say so
+        del ctx.obligations[mark[0]:]
+        del ctx.findings[mark[1]:]
+        raise AnalysisError(f"{f.loc(f.node)}: get_closest computes its index through the repository helper(s) {[o[:40] for o in opaque[:3]]}, which could not be read in place; cannot decide R1/R3")
 
 
 def _clamp_kind(n, e: ast.expr, idx: str, hi_forms: set[str]) -> str:
@@ -186,6 +196,11 @@ def r2_digitize(ctx: Context) -> None:
     g = CFG(f.node)
     rets = returns_of(f)
     ctx.floor("R2", "return in digitize_data", len(rets), 1)
+    from ..model import FuncInfo
+    for lp_ in [x for x in ast.walk(f.node) if isinstance(x, (ast.For, ast.comprehension))]:
+        for c_ in ast.walk(lp_.iter):
+            if isinstance(c_, ast.Call) and any(isinstance(t, FuncInfo) for t in ctx.prog.resolve_call(f, c_)):
+                raise AnalysisError(f"{f.loc(c_)}: the column loop of digitize_data iterates the repository helper `{src(c_.func)}`, which could not be read in place; cannot decide R2")
     n0 = normaliser(ctx.prog, f)
     count_forms = {str(n0.rat(parse_expr(t))) for t in (f"{data}.shape[1]", f"len({grid})", f"{data}.shape[-1]")}
     want_text = f"get_closest({grid}[{IDX}], {data}[:, {IDX}])"
